@@ -3,17 +3,51 @@
 import json, os, subprocess
 VERIF = os.path.dirname(os.path.dirname(os.path.abspath(__file__)))
 
-CLAIMED = {
- "C15": dict(
+CLAIMED_C15 = dict(
    text="Machine-checked Coq proof, for every byte string and every offset (on or off character boundaries, past the end), that the checkpoint/binary-search/forward-count converter of the model equals the direct one-pass definition (and that this pass is line = 1 + completed line endings, column = characters since the last one); the model is tied to /repo on every run by a differential correspondence check (SourceWithLineStarts::new + SourcePos::get_positions vs the extracted model, debug and release) and an independent Python implementation of the definition.",
    note="Trusted: Coq kernel; hand-written model coq/model/SourceMap.v (binary_search_by over strictly increasing offsets modelled as last-mark-with-offset<=key; char_indices modelled as non-continuation bytes) agrees with src/common/sourcemap.rs as far as the sampled correspondence shows; extraction, driver, harness.",
    technique="Coq proof over Gallina model + extracted-model/implementation differential correspondence",
-   design="DESIGN.md section 6 C15"),
- "C17": dict(
+   design="DESIGN.md section 6 C15")
+CLAIMED_C17 = dict(
    text="Machine-checked Coq proofs (unbounded: all byte strings, all safe sets, both modes) of ASCII-only output, the (safe | %XX)* grammar, idempotence and escape preservation in keep-escaped mode, and decode round trip otherwise, about a hand-written Gallina model of mdurl::encode; the model is tied to /repo on every run by a differential correspondence check (model extracted to OCaml vs the real function on generated and follow-up inputs, debug and release builds).",
    note="Trusted: Coq kernel; hand-written model (coq/model/Mdurl.v) agrees with src/common/mdurl/encode.rs only as far as the sampled correspondence shows; extraction (ExtrOcamlBasic), OCaml driver, Rust harness; String::from_utf8 on ASCII bytes.",
    technique="Coq proof over Gallina model + extracted-model/implementation differential correspondence",
-   design="DESIGN.md section 6 C17"),
+   design="DESIGN.md section 6 C17")
+COMMON_NOTE = ("Trusted: Coq 8.16 kernel (vm_compute used, no native_compute, no axioms); the hand-written Gallina model of the "
+               "library (coq/model/*.v: modelled, not verified) agrees with /repo only as far as the sampled correspondence shows; "
+               "extraction (ExtrOcamlBasic), OCaml driver, Rust harness, Python generators/oracles; tables dumped from the implementation.")
+TECH = "Coq proof over Gallina model + extracted-model/implementation differential correspondence"
+
+def P(text, design, note=COMMON_NOTE, category="proof", technique=TECH):
+    return dict(text=text, note=note, design=design, category=category, technique=technique)
+
+PENDING = (" The unbounded theorems for this property are not all proved yet: props/%s.v currently holds kernel-evaluated "
+           "witnesses on the whole-parser model (and the lemmas listed in the evidence under 'theorems'); until they land the "
+           "deciding evidence on a run is the model/implementation correspondence on every observable plus the implementation-side "
+           "property oracle, so the level claimed is exploration, not proof.")
+TECH_X = "differential correspondence with the Coq model (extracted) + implementation-side property oracle; Coq theorems partial"
+
+CLAIMED = {
+ "C01": P("Whole-parser Gallina model with explicit Panic/Hang/OutOfFuel results; every generated/adversarial document under random plugin subsets, orders and nesting limits must parse, walk and render (HTML, XHTML, recording renderer) without panic, abort or hang in debug and release builds, and agree with the model on tree, ranges, HTML and events." + PENDING % "C01", "DESIGN.md section 6 C01", category="exploration", technique=TECH_X),
+ "C02": P("Nesting families at 1x..200x the limit under limits {0,1,2,3,10,100}: tree depth (emphasis wrappers not counted) <= 3*limit+4, measured recursion gauge (hook) <= limit+2, recursive walk returns; emphasis-only excess is the open known finding F3; model/implementation correspondence on the same inputs." + PENDING % "C02", "DESIGN.md section 6 C02", category="exploration", technique=TECH_X),
+ "C03": P("Without the raw-HTML plugins a strict reader of the renderer's output language must accept HTML and XHTML for hostile and generated input (known elements, nesting, allowed attributes, quoted escaped values, escaped character data); escape_html tied to the model on every character class; model/implementation correspondence." + PENDING % "C03", "DESIGN.md section 6 C03", category="exploration", technique=TECH_X),
+ "C04": P("Scheme x obfuscation x link-syntax table plus generated documents: every href/src, read the way a browser reads it, is not javascript/vbscript/file/data (image whitelist excepted); normalize_link/validate_link unit correspondence; model/implementation correspondence." + PENDING % "C04", "DESIGN.md section 6 C04", category="exploration", technique=TECH_X),
+ "C05": P("Range oracle (validity, boundaries, root, nesting, sibling order, faithful Text/TextSpecial) on every node of generated documents biased to tabs, multi-byte text, CR/CRLF and nested inline content; model/implementation correspondence on every range." + PENDING % "C05", "DESIGN.md section 6 C05", category="exploration", technique=TECH_X),
+ "C06": P("Metamorphic relations on tab-free documents: '> '-prefixing gives the blockquote wrapper and shifts every range by the inserted bytes; placing D in a loose list item gives the list wrapper; model/implementation correspondence on all three parses." + PENDING % "C06", "DESIGN.md section 6 C06", category="exploration", technique=TECH_X),
+ "C07": P("Histories of 2..12 documents on one parser instance vs fresh instances (tree, HTML, XHTML), including documents built to poison caches (reference definitions, backtick runs, huge bracket spans, low-byte colliding characters); the model threads the parser's cache state explicitly; correspondence on histories." + PENDING % "C07", "DESIGN.md section 6 C07", category="exploration", technique=TECH_X),
+ "C08": P("Histories of add/remove/has_rule/Debug/parse calls vs the same history with intermediate parses deleted, at MarkdownIt level (block, inline incl. letter/punctuation markers, core rules) and at Ruler level (aliases, constraints); the model's Ruler and InlineParser carry their OnceCell caches as state; correspondence on histories." + PENDING % "C08", "DESIGN.md section 6 C08", category="exploration", technique=TECH_X),
+ "C09": P("Random rule sets (aliases, duplicate marks/constraints, absent and own marks, priorities): an independent oracle recomputes edges, requirement check, stable priority partition and the greedy order and demands permutation, every edge respected, order = greedy order, panic iff missing requirement or no admissible order, same result on reuse; the Coq model follows compile() statement by statement and is compared on every script." + PENDING % "C09", "DESIGN.md section 6 C09", category="exploration", technique=TECH_X),
+ "C10": P("Metamorphic relations LF->CRLF, LF->CR and appended final newline on CR-free documents under random plugin sets: identical HTML; in the model the parser proper receives only line texts (split_lines), so the relation reduces to the splitter; correspondence on all variants." + PENDING % "C10", "DESIGN.md section 6 C10", category="exploration", technique=TECH_X),
+ "C11": P("Payload x {fence, four-space indent, backtick span} x {top level, block quote, list item}: content field and escaped HTML equal the payload; cutws/indent unit correspondence for the tab-stop arithmetic; model/implementation correspondence." + PENDING % "C11", "DESIGN.md section 6 C11", category="exploration", technique=TECH_X),
+ "C12": P("Every named reference of the implementation's table (thorough tier), numeric references over boundary/invalid code points and all 32 escapes in five contexts: decoded characters agree; escape-everything round trip on random printable lines; unescape_all / entity / code-point validity unit correspondence." + PENDING % "C12", "DESIGN.md section 6 C12", category="exploration", technique=TECH_X),
+ "C13": P("Label pairs related by case and whitespace variants x use forms x definition placement x multiplicity: resolves iff equal under full case folding + whitespace collapsing, first definition wins, definitions produce no output; normalize_reference unit correspondence (tables dumped from the implementation)." + PENDING % "C13", "DESIGN.md section 6 C13", category="exploration", technique=TECH_X),
+ "C14": P("Tree-shape oracle (final kinds only, Root at top, list/item discipline, inline under leaf blocks/items/inline containers, childless leaves, no empty or adjacent Text) on generated and delimiter-heavy documents under random plugin sets; model/implementation correspondence on trees." + PENDING % "C14", "DESIGN.md section 6 C14", category="exploration", technique=TECH_X),
+ "C15": CLAIMED_C15,
+ "C16": P("Dual-run probe (hook): every rule is called in look-ahead mode right before its real call in both tokenizer loops and contradictions are recorded; custom block rule in both permitted look-ahead styles, first or last in the chain, after every container: identical HTML; model/implementation correspondence." + PENDING % "C16", "DESIGN.md section 6 C16", category="exploration", technique=TECH_X),
+ "C17": CLAIMED_C17,
+ "C18": P("For generated image descriptions (escapes, references, breaks, nested emphasis/links/images, deep emphasis) the alt attribute equals the tag-stripped text of the same inline content rendered as a paragraph; model/implementation correspondence." + PENDING % "C18", "DESIGN.md section 6 C18", category="exploration", technique=TECH_X),
+ "C19": P("An independent Python serializer applied to the implementation's own renderer events (recorded through the public Renderer trait) reproduces HTML and XHTML, purity flag (render twice, tree unchanged), outputs above 16 KiB, NUL in every sink, two fence prefixes interleaved in one process; the model's events and serializer are compared with the implementation." + PENDING % "C19", "DESIGN.md section 6 C19", category="exploration", technique=TECH_X),
+ "C20": P("Random operation sequences over five value types against a Python dict model; random and deep (> 256 levels) tree shapes against the pre-order/depth specification; replace preserves children, range, attributes; model/implementation correspondence." + PENDING % "C20", "DESIGN.md section 6 C20", category="exploration", technique=TECH_X),
 }
 
 NOT_YET = {}
@@ -36,7 +70,7 @@ def main():
                 "evidence_file": "evidence/%s.json" % p,
                 "replay_cmd_template": "bin/check %s --replay {path}" % p,
                 "engine": "coq-model-correspondence",
-                "level_claimed": {"category": c.get("category", "proof"), "text": c["text"], "design_ref": c["design"]},
+                "level_claimed": {"category": c.get("category", "proof"), "text": c["text"], "design_ref": c.get("design", "DESIGN.md section 6")},
                 "level_note": c["note"],
                 "technique": c["technique"],
             })
